@@ -186,14 +186,14 @@ Lemma kidsc : forall raw l p acc rest s2 nm,
   exists acc' nx', prun PPlain s2 (ckids raw l p ++ [TEnd nm]) =
       POk (pop_frame {| pstk := acc' :: rest; pdone := pdone s2; has_root := true; pdoctype := pdoctype s2; pnext := nx' |})
     /\ sc (fh acc') = false /\ start_tag (fh acc') = start_tag (fh acc) /\ end_tag (fh acc') = end_tag (fh acc)
-    /\ blocks_html (fbs acc') = blocks_html (fbs acc) +++ p +++ blocks_html l.
+    /\ blocks_html (fbs acc') = blocks_html (fbs acc) +++ p +++ blocks_html l /\ name (fh acc') = nm.
 Proof.
   induction l as [|[x|c] l IHl]; intros p acc rest s2 nm Hseg Hc Hsc Hn E2 Hr2; cbn [ckids CompleteK] in *.
   - pose proof Hc as Ht. pose proof (chunk_text_textlike (String.length p) p "") as Hl. fold (flush p) in Hl.
     destruct (text_run (flush p) s2 acc rest Hl E2 Hsc) as (a1 & Hrun & Q1 & Q2 & Q3 & Q4 & Q5 & Q6).
     exists a1, (pnext s2). rewrite prun_app, Hrun. cbn [prun]. simpl pstep. unfold handle_end_plain. cbn [pstk with_stk].
     simpl has_name. rewrite Q4, Hn, String.eqb_refl. simpl. rewrite Q4, Hn, String.eqb_refl.
-    split; [|split; [exact Q1|split; [exact Q2|split; [exact Q3|]]]].
+    split; [|split; [exact Q1|split; [exact Q2|split; [exact Q3|split; [|congruence]]]]].
     + f_equal. unfold with_stk. rewrite Hr2. reflexivity.
     + rewrite Q6, Ht. unfold blocks_html at 3. simpl. now rewrite append_nil_r.
   - destruct raw.
@@ -202,14 +202,14 @@ Proof.
       { apply Forall_app. split; auto. destruct (String.eqb x "") eqn:E; constructor; auto. simpl. intros ->. discriminate. }
       destruct (text_run _ s2 acc rest Hl' E2 Hsc) as (a1 & Hrun & Q1 & Q2 & Q3 & Q4 & Q5 & Q6).
       rewrite app_assoc, <- (app_assoc _ _ [TEnd nm]), prun_app, Hrun.
-      destruct (IHl "" a1 rest (with_stk s2 (a1 :: rest)) nm Hseg Hc Q1 (eq_trans Q4 Hn) eq_refl Hr2) as (a2 & nx & Hrun2 & R1 & R2 & R3 & R4).
-      exists a2, nx. split; [exact Hrun2|]. split; [exact R1|]. split; [congruence|]. split; [congruence|].
+      destruct (IHl "" a1 rest (with_stk s2 (a1 :: rest)) nm Hseg Hc Q1 (eq_trans Q4 Hn) eq_refl Hr2) as (a2 & nx & Hrun2 & R1 & R2 & R3 & R4 & R5).
+      exists a2, nx. split; [exact Hrun2|]. split; [exact R1|]. split; [congruence|]. split; [congruence|]. split; [|exact R5].
       rewrite R4, Q6, texts_app, Ht, blocks_html_cons. cbn [block_html].
       assert (Hx : texts (if String.eqb x "" then [] else [TData x]) = x).
       { destruct (String.eqb x "") eqn:E; [apply String.eqb_eq in E; now subst|]. unfold texts. simpl. now rewrite append_nil_r. }
       rewrite Hx. simpl. now rewrite !append_assoc.
-    + destruct (IHl (p +++ x) acc rest s2 nm Hseg Hc Hsc Hn E2 Hr2) as (a2 & nx & Hrun2 & R1 & R2 & R3 & R4).
-      exists a2, nx. split; [exact Hrun2|]. split; [exact R1|]. split; [exact R2|]. split; [exact R3|].
+    + destruct (IHl (p +++ x) acc rest s2 nm Hseg Hc Hsc Hn E2 Hr2) as (a2 & nx & Hrun2 & R1 & R2 & R3 & R4 & R5).
+      exists a2, nx. split; [exact Hrun2|]. split; [exact R1|]. split; [exact R2|]. split; [exact R3|]. split; [|exact R5].
       rewrite R4, blocks_html_cons. cbn [block_html]. now rewrite !append_assoc.
   - destruct Hc as [Ht [_ Hc]]. pose proof (chunk_text_textlike (String.length p) p "") as Hl. fold (flush p) in Hl. simpl in Hseg. pose proof (Forall_inv Hseg) as Hsc0. pose proof (Forall_inv_tail Hseg) as Hseg'.
     destruct (text_run (flush p) s2 acc rest Hl E2 Hsc) as (a1 & Hrun & Q1 & Q2 & Q3 & Q4 & Q5 & Q6).
@@ -218,8 +218,8 @@ Proof.
     destruct (push1_shell (BTag c') a1 Q1) as (P1 & P2 & P3 & P4).
     assert (E' : pstk (set_next (push_top (BTag c') (with_stk s2 (a1 :: rest))) nx') = push1 (BTag c') a1 :: rest).
     { unfold set_next, push_top, with_stk. cbn [pstk]. apply push_block_push1. }
-    destruct (IHl "" (push1 (BTag c') a1) rest _ nm Hseg' Hc P1 (eq_trans (push1_name _ _) (eq_trans Q4 Hn)) E' Hr2) as (a2 & nx & Hrun2 & R1 & R2 & R3 & R4).
-    exists a2, nx. split; [exact Hrun2|]. split; [exact R1|]. split; [congruence|]. split; [congruence|].
+    destruct (IHl "" (push1 (BTag c') a1) rest _ nm Hseg' Hc P1 (eq_trans (push1_name _ _) (eq_trans Q4 Hn)) E' Hr2) as (a2 & nx & Hrun2 & R1 & R2 & R3 & R4 & R5).
+    exists a2, nx. split; [exact Hrun2|]. split; [exact R1|]. split; [congruence|]. split; [congruence|]. split; [|exact R5].
     rewrite R4, P4, Q6, Ht, blocks_html_cons. cbn [block_html]. rewrite Hhtml. simpl. now rewrite !append_assoc.
 Qed.
 
@@ -253,7 +253,7 @@ Proof.
     { pose proof (CompleteK_children _ _ _ Hc) as Hck. rewrite Forall_forall in IH, Hall, Hck |- *. intros c Hin. apply IH; auto.
       unfold GoodTree. rewrite Forall_forall in Hrest |- *. intros x Hx. apply Hrest. apply in_flat_map. eauto. }
     destruct (kidsc (is_raw (name h)) bs "" {| fh := h0; fbs := [BText ""] |} (f :: r) s1 (name h) Hkids Hc eq_refl eq_refl eq_refl eq_refl)
-      as (acc' & nx & Hrun & R1 & R2 & R3 & R4).
+      as (acc' & nx & Hrun & R1 & R2 & R3 & R4 & R5).
     exists (Tag (fh acc') (fbs acc')), nx. split.
     + rewrite Hrun. unfold pop_frame, set_next, push_top, with_stk. cbn [pstk pdone has_root pdoctype pnext s1]. rewrite Es, Hr. reflexivity.
     + rewrite !outer_unfold, R1, R2, R3, R4, Esc. cbn [fh fbs]. rewrite Hst, Het. unfold blocks_html at 1. simpl. reflexivity.
@@ -282,7 +282,7 @@ Proof.
     { pose proof (CompleteK_children _ _ _ Hc) as Hck. rewrite Forall_forall in Hall, Hck |- *. intros c Hin. apply segc; auto.
       unfold GoodTree. rewrite Forall_forall in Hrest |- *. intros x Hx. apply Hrest. apply in_flat_map. eauto. }
     destruct (kidsc (is_raw (name h)) bs "" {| fh := h0; fbs := [BText ""] |} [] s1 (name h) Hkids Hc eq_refl eq_refl eq_refl eq_refl)
-      as (acc' & nx & Hrun & R1 & R2 & R3 & R4).
+      as (acc' & nx & Hrun & R1 & R2 & R3 & R4 & R5).
     rewrite Hrun. eexists. exists (Tag (fh acc') (fbs acc')). split; [reflexivity|]. split; [reflexivity|]. split; [reflexivity|].
     rewrite !outer_unfold, R1, R2, R3, R4, Esc. cbn [fh fbs]. rewrite Hst, Het. unfold blocks_html at 1. simpl. reflexivity.
 Qed.
